@@ -158,6 +158,10 @@ class Index(object):
             self.destaticed = destatic(trees, _lr())
             from .normalize import unroll_literal_tables
             self.unrolled = unroll_literal_tables(trees)
+            from .normalize import desugar_dict_dispatch
+            self.dict_dispatch = desugar_dict_dispatch(trees)
+            from .normalize import inline_struct_constants
+            self.struct_constants = inline_struct_constants(trees)
             self.canonicalised = canonicalise(trees)
             from .canon import canonicalise_locals
             self.canonicalised += canonicalise_locals(trees)
